@@ -189,6 +189,19 @@ def run(ctx):
                         'a handler of the run swallows the GeneratorExit of an abandoned run and yields again: the terminate signal is never set and the '
                         'worker stays alive', witness=dr.path_to(node, st)))
 
+    # a worker exists only while the generator runs: the entry point itself (executed when the run is requested, before the first
+    # next()) creates nothing - a run that is dropped before it is started would otherwise leave its worker behind for ever
+    entry = er.entry
+    early = []
+    if entry is not runc:
+        creators = {create.name, recyc.name, ww.name}
+        early = [n for n in ast.walk(entry.node) if isinstance(n, ast.Call) and self_attr(n.func) in creators]
+    cd.instance('no worker is created outside the generator whose finally stops it (entry point %s)' % entry.qualname, entry.qualname, not early)
+    for n in early[:1]:
+        res.add(Finding('C13', 'C13.d', 'R-TYPESTATE', entry.file, entry.qualname, n.lineno, norm(n),
+                        '%s starts the worker before the generator (%s) is running: a run that is closed or dropped before its first result never '
+                        'reaches the finally that stops the worker' % (entry.qualname, runc.qualname)))
+
     # ---------------- C13.e recycle bound
     if age is None:
         raise AnalysisError('anchor-lost role=worker age field (reset to 0 where the worker is created)')
@@ -290,12 +303,21 @@ def run(ctx):
         res.add(Finding('C13', 'C13.e', 'R-ABSINT', recyc.file, recyc.qualname, recyc.node.lineno, 'recycle order %s' % order,
                         'an aged worker is not terminated in the order set, join, forget, clear: clearing before the join lets it keep running'))
     # ---------------- C13.f
-    okf = any(isinstance(n, ast.If) and isinstance(n.test, ast.Compare) and self_attr(n.test.left) == handle and isinstance(n.test.ops[0], ast.Is) and
-              any(isinstance(x, ast.Call) and self_attr(x.func) == create.name for x in ast.walk(n)) for n in ast.walk(recyc.node))
-    ncalls = sum(1 for m in eq.methods.values() for n in ast.walk(m.node) if isinstance(n, ast.Call) and self_attr(n.func) == create.name)
-    cf.instance('worker created only under `handle is None` (%d creation site)' % ncalls, recyc.qualname, okf and ncalls == 1)
+    from . import common as _cmn
+    ncalls = 0
+    unguarded = []
+    for m in eq.methods.values():
+        for st_, conds in _cmn.guards_of(m.node, lambda x: isinstance(x, ast.Call) and self_attr(x.func) == create.name):
+            ncalls += 1
+            lits = [l for t_, p_ in conds for l in _cmn.split_literals(t_, p_)]
+            if not any(isinstance(t_, ast.Compare) and self_attr(t_.left) == handle and len(t_.ops) == 1 and
+                       ((isinstance(t_.ops[0], ast.Is) and p_) or (isinstance(t_.ops[0], ast.IsNot) and not p_)) and
+                       isinstance(t_.comparators[0], ast.Constant) and t_.comparators[0].value is None for t_, p_ in lits):
+                unguarded.append((m, st_))
+    okf = ncalls >= 1 and not unguarded
+    cf.instance('worker created only under `handle is None` (%d creation site(s))' % ncalls, recyc.qualname, okf)
     cf.evaluations += 1
-    if not (okf and ncalls == 1):
+    if not okf:
         res.add(Finding('C13', 'C13.f', 'R-ORDER', recyc.file, recyc.qualname, recyc.node.lineno, 'worker creation guard',
                         'a replacement worker can be created while another handle is still held'))
     # ---- C13.g the execution configuration reaches the equalizer as given (a rate / timeout of 0 is a legal value)
